@@ -32,17 +32,25 @@ def mutants_of(path, text):
     out = []
     depth_fn = False
     in_test = False
+    in_test_fn = False
     for i, l in enumerate(lines):
         t = l.strip()
         if t.startswith("#[cfg(test)]") or t.startswith("mod tests"):
             in_test = True
-        if in_test:
+        if t == "#[test]" or t.startswith("#[tokio::test"):
+            in_test_fn = True
+        elif in_test_fn and l.startswith("}"):
+            in_test_fn = False
+            continue
+        if in_test or in_test_fn:
             continue
         if not l.startswith("        ") or t.startswith("//") or t.startswith("#[") or "verif::" in l or "verif_hooks" in l or t.startswith("///"):
             continue
         if i > 0 and "verif_hooks" in lines[i - 1]:
             continue
         code = l.split("//")[0]
+        if "write!(" in code or "f.debug_" in code or ".field(" in code:
+            continue  # Display / Debug text is not part of any property
         # generics / types are not operators
         if re.search(r"\b(fn|impl|where|struct|enum|type|use)\b", code) or "->" in code and "=>" not in code and "fn" in code:
             continue
@@ -53,6 +61,23 @@ def mutants_of(path, text):
                     continue
                 new = code[:m.start()] + rep + code[m.end():] + l[len(code):]
                 out.append({"file": path, "line": i + 1, "op": "%s -> %s" % (pat, rep), "old": l.strip(), "new": new.strip(), "text": "\n".join(lines[:i] + [new] + lines[i + 1:])})
+        # swap the results of two adjacent single-line match arms / the values of two adjacent struct-literal fields
+        if i + 1 < len(lines):
+            m1 = re.match(r"^(\s*)(.+?) => (.+),\s*$", code)
+            m2 = re.match(r"^(\s*)(.+?) => (.+),\s*$", lines[i + 1].split("//")[0])
+            if m1 and m2 and m1.group(3) != m2.group(3) and "{" not in m1.group(3) and "{" not in m2.group(3):
+                a = "%s%s => %s," % (m1.group(1), m1.group(2), m2.group(3)); b = "%s%s => %s," % (m2.group(1), m2.group(2), m1.group(3))
+                out.append({"file": path, "line": i + 1, "op": "swap arm results", "old": l.strip() + " / " + lines[i + 1].strip(), "new": a.strip() + " / " + b.strip(), "text": "\n".join(lines[:i] + [a, b] + lines[i + 2:])})
+            f1 = re.match(r"^(\s*)(\w+): (.+),\s*$", code)
+            f2 = re.match(r"^(\s*)(\w+): (.+),\s*$", lines[i + 1].split("//")[0])
+            if f1 and f2 and f1.group(3) != f2.group(3) and f1.group(1) == f2.group(1):
+                a = "%s%s: %s," % (f1.group(1), f1.group(2), f2.group(3)); b = "%s%s: %s," % (f2.group(1), f2.group(2), f1.group(3))
+                out.append({"file": path, "line": i + 1, "op": "swap field values", "old": l.strip() + " / " + lines[i + 1].strip(), "new": a.strip() + " / " + b.strip(), "text": "\n".join(lines[:i] + [a, b] + lines[i + 2:])})
+        # `Some(x)` in value position -> `None`
+        for m in re.finditer(r"(?<![\w(] )\bSome\(([\w\.\(\)&]+)\)(?!\s*(=>|=[^=]))", code):
+            if not re.match(r"^\s*(if let|while let|let Some|Some\()", code.strip()) and "=>" not in code[m.end():m.end() + 4] and not code.strip().startswith("Some("):
+                new = code[:m.start()] + "None" + code[m.end():]
+                out.append({"file": path, "line": i + 1, "op": "Some(..) -> None", "old": l.strip(), "new": new.strip(), "text": "\n".join(lines[:i] + [new] + lines[i + 1:])})
         # statement deletion: a call statement on one line
         if re.match(r"^\s*(let _ = )?[\w\.\(\)&: ]*\w+\([^;]*\);\s*$", code) and not t.startswith("let ") or t.startswith("let _ ="):
             if t.endswith(";") and not t.startswith("return") and "=" not in t.replace("let _ =", "").replace("==", "").replace("=>", "").split("(")[0]:
@@ -89,13 +114,16 @@ def verify(unit, repo, gen, base_fail=None):
 
 def main():
     args = sys.argv[1:]
-    jobs, limit, feats = 6, None, ""
+    jobs, limit, feats, notests, tag, only = 6, None, "", False, "", None
     pos = []
     i = 0
     while i < len(args):
         if args[i] == "--jobs": jobs = int(args[i + 1]); i += 2
         elif args[i] == "--limit": limit = int(args[i + 1]); i += 2
         elif args[i] == "--features": feats = args[i + 1]; i += 2
+        elif args[i] == "--only-ops": only = args[i + 1].split(";"); i += 2
+        elif args[i] == "--no-tests": notests = True; i += 1   # the crate's tests need a server: compile only
+        elif args[i] == "--tag": tag = args[i + 1]; i += 2      # worktree name suffix (to run two campaigns side by side)
         else: pos.append(args[i]); i += 1
     unit, crate, files = pos[0], pos[1], pos[2:]
     ck.ensure_vx()
@@ -107,17 +135,17 @@ def main():
     seen, uniq = set(), []
     for m in muts:
         key = (m["file"], m["line"], m["new"])
-        if key not in seen and m["new"] != m["old"]:
+        if key not in seen and m["new"] != m["old"] and (only is None or m["op"] in only):
             seen.add(key); uniq.append(m)
     muts = uniq[:limit] if limit else uniq
     print("%d mutants" % len(muts), flush=True)
-    base_status, base_fail = verify(unit, "/repo", "/tmp/mut_base_gen")
+    base_status, base_fail = verify(unit, "/repo", "/tmp/mut_base_gen" + tag)
     base_fail = set(base_fail)
     print("baseline:", base_status, sorted(base_fail), flush=True)
     # worktrees
     wts = []
     for k in range(jobs):
-        wt = "/tmp/mut_wt_%d" % k
+        wt = "/tmp/mut_wt%s_%d" % (tag, k)
         if not os.path.exists(wt):
             r = sh("git", "-C", "/repo", "worktree", "add", "-q", "--detach", wt, "HEAD")
             if r.returncode: sys.exit("worktree: " + r.stderr)
@@ -139,8 +167,8 @@ def main():
                 if r.returncode != 0:
                     st, det = "uncompilable", []
                 else:
-                    r = subprocess.run(["cargo", "test", "-p", crate, "--offline", "--lib", "--tests"] + feat_args, capture_output=True, text=True, cwd=wt, env=env, timeout=600)
-                    if r.returncode != 0:
+                    r = None if notests else subprocess.run(["cargo", "test", "-p", crate, "--offline", "--lib", "--tests"] + feat_args, capture_output=True, text=True, cwd=wt, env=env, timeout=600)
+                    if r is not None and r.returncode != 0:
                         st, det = "killed-by-tests", []
                     else:
                         st, det = verify(unit, wt, wt + "/mutgen", base_fail)
